@@ -21,7 +21,8 @@ RULE = ("seeded single-writer histories (5-14 ops: appends, two-append txns, fil
         "outside the range, expected = most recently COMMITTED retained snapshot with ts <= t (commit order from the "
         "flip log); deleting the current snapshot must repoint to the most recently committed survivor. Distinct = "
         "SHA-1 of write/pointer events; non-trivial = >= 2 retained snapshots were re-read after a later manifest "
-        "rewrite, expiry, deletion or collection.")
+        "rewrite, expiry, deletion or collection. Failing operations in the histories: schema-divergent append, rollback, and a transaction that "
+        "queues a retained file again with append_files next to a missing one and rolls back.")
 ASSUMPTIONS = common.BASE_ASSUMPTIONS + [
     "non-monotone timestamps are produced by per-process clock skew (different machines taking turns), reported under "
     "their own configuration label",
